@@ -85,6 +85,7 @@ Record oopts := mkOO {
 Inductive oerr :=
 | OENotExist                          (* os.ErrNotExist handed through (ErrorIfMissing or ReadOnly, empty storage) *)
 | OEEntryCorrupt                      (* "database entry point either missing or corrupted" *)
+| OEMetaCorrupt                       (* GetMeta of the file storage: ErrCorrupted (no usable CURRENT*, some unusable) *)
 | OEExist                             (* os.ErrExist (ErrorIfExist) *)
 | OEManifestRead                      (* the journal reader's error on the manifest (StrictManifest) *)
 | OEManifest (f : SR.rfail)           (* what session.recover itself reports *)
@@ -548,3 +549,28 @@ Definition dir_image (ro : bool) (v : FS.view) : dres :=
   | FS.GErr FS.GNotExist => DImage (mkSI None (dir_files v))
   | FS.GErr FS.GCorrupted => DCorrupted
   end.
+
+(* leveldb.OpenFile's Open on a directory of the real file storage *)
+Section OpenDir.
+  Variable jcrc : bytes -> N.
+  Variable jp : jparams.
+  Variable rp : SR.rparams.
+  Variable kp : kparams.
+  Variable bhl : N.
+  Variable mp : MemDB.mparams.
+  Variable tp : tparams.
+  Variable tcrc : bytes -> N.
+  Variable compress : bytes -> bytes.
+  Variable snappy : bool.
+  Variable fgen : option (bytes * (list (N * list bytes) -> bytes)).
+  Variable blockSize ri : N.
+  Variable c : comparer.
+
+  Definition open_dir (o : oopts) (hts : list N) (v : FS.view) : ores ostate :=
+    match dir_image (oo_ro o) v with
+    | DImage img => open_bytes jcrc jp rp kp bhl mp tp tcrc compress snappy fgen blockSize ri c o hts img
+    | DCorrupted => OErr OEMetaCorrupt
+    | DOther => OErr OEPanic
+    end.
+End OpenDir.
+
